@@ -26,7 +26,14 @@ META = {
             "C19_atv_window_closes); C19_full_premises_satisfiable. Tie to the code: always-accept oracle on "
             "generated honest histories (every endorsable block incl. side forks, window boundaries, VBK/BTC forking, "
             "delivery through blocks and through the mempool), stateless checks, endorsement visible in "
-            "containing/endorsedBy/blockOfProof lists, abort handler; extracted model vs library on every verdict.",
+            "containing/endorsedBy/blockOfProof lists, abort handler; extracted model vs library on every verdict. "
+            "'Counts in payouts': 2-3 accepted endorsements of one block with blocks of proof 0, 1, n-2, n-1, n VBK blocks "
+            "above the earliest publication (n = size of the reward table read from the params object at run time) are "
+            "paid > 0 at the payout height exactly when the table weight is non-zero. 'Counts in fork resolution': a "
+            "chain backed only by an endorsement of its block at keystone K + {0, 1, ki-1, ki, ki+1} (K = ki, 2ki; forks "
+            "from below K; tips below / at / above K+ki+1) beats an equally long chain without endorsement and one whose "
+            "only endorsement for K was published later in VBK, in both directions of comparePopScore (strictness "
+            "decided by the fork resolution table the library reports).",
     "note": "Trusted: as C04. The stateless part (C05) and payouts (C14) are observed only. _partial in the sense that "
             "'counts in fork resolution and payouts' is checked on the implementation, not proved here.",
     "technique": "Coq proof + extraction-based differential correspondence + always-accept oracle with abort handler",
@@ -56,6 +63,20 @@ def cases_for(ctx):
     for _ in range(10 if quick else 150):
         k += 1
         cases.append(("p%d" % k, R.case_pubdata(r.fork())))
+    # "... and then counts in payouts": 2-3 endorsements of one block at the distances 0, 1, n-2, n-1, n of the reward
+    # table (n read from the library's params by the harness); every non-zero weight must be paid
+    for _ in range(2 if quick else 40):
+        for d in R.PAYOUT_DISTANCES:
+            k += 1
+            cases.append(("y%d" % k, R.case_payout(r.fork(), d)))
+    # "... counts in fork resolution": a chain backed only by an endorsement of the block at keystone K + offset beats
+    # an equally long fork without endorsement / with a later published one (both directions of comparePopScore)
+    for _ in range(1 if quick else 20):
+        for kmul in (1, 2):
+            for o in R.FORKRES_OFFSETS:
+                for later in (False, True):
+                    k += 1
+                    cases.append(("f%d" % k, R.case_forkres(r.fork(), kmul, o, later)))
     return cases
 
 
@@ -67,5 +88,6 @@ def run(ctx):
         cases = R.load_corpus(vlib, "C19") + cases_for(ctx)
     ctx.cov["rule"] = ("honest histories (8-18 steps: honest blocks on random parents incl. side forks, endorsing the "
                        "oldest timely block and the direct parent, VBK/BTC forks by the miner), the boundary "
-                       "non-violations of the rule set, and mempool deliveries; distinct = distinct (kind, depth, length)")
+                       "non-violations of the rule set, mempool deliveries, payout-distance scenarios and fork resolution "
+                       "pairs; distinct = distinct (kind, depth, length)")
     R.check(vlib, ctx, "C19", cases)
